@@ -613,7 +613,8 @@ var iter_type(var self);
 #define foreach_xp(X, A) X A
 #define foreach_in(X, S) for(var \
   __##X = (S), \
-  __Iter##X = instance(__##X, Iter), \
+  __Iter##X = method_at_offset(__##X, Iter, \
+    offsetof(struct Iter, iter_init), "iter_init"), \
   X = ((struct Iter*)(__Iter##X))->iter_init(__##X); \
   X isnt Terminal; \
   X = ((struct Iter*)(__Iter##X))->iter_next(__##X, X))
